@@ -90,3 +90,15 @@ def little_to_native_float(bits):
     return FuncSpec('little_to_native_f%d' % bits, BIN, r'\blittle_to_native\s*\(const uint8_t\* first, std::size_t count\)', ordinal=0, count=2,
                     csig='static %s little_to_native_f%d(const uint8_t* first, size_t count)' % (t, bits),
                     rules=[(r'\bT val;', '%s val;' % t, 1), (r'return T\{\};', 'return 0;', 1), (r'sizeof\(T\)', 'sizeof(%s)' % t, 2)])
+
+
+def native_to_big_float(bits, push='vx_sink_push'):
+    # the little-endian definition of native_to_big instantiated with T = float / double (goes through the floating byte_swap overload)
+    t = {32: 'float', 64: 'double'}[bits]
+    return FuncSpec('native_to_big_f%d' % bits, BIN, r'\bnative_to_big\s*\(T val, OutputIt d_first\)', ordinal=1, count=2,
+                    csig='static void native_to_big_f%d(%s val)' % (bits, t),
+                    rules=[(r'\bT val2\b', '%s val2' % t, 1),
+                           (r'\bbyte_swap\(', 'byte_swap_f%d(' % bits, 1),
+                           (r'sizeof\(T\)', 'sizeof(%s)' % t, 2),
+                           (r'for \(auto item : buf\)\s*\{\s*\*d_first\+\+ = item;\s*\}',
+                            'for (size_t vx_i = 0; vx_i < sizeof(buf); ++vx_i) { %s(buf[vx_i]); }' % push, 1)])
